@@ -452,8 +452,17 @@ def structured_pairs(ctx):
     add("insert-300", [["rep", 65, 10]], [["rand", 6, 300]])
     for n in (126, 127, 128, 129, 254, 255, 256, 381, 382):     # literal runs around the 127-byte insert limit
         add(f"insert-{n}", [["rep", 65, 10]], [["rand", 20 + n, n]])
-    for n in (65535, 65536, 65537, 131070, 131071):             # common runs around the 0xFFFF copy limit
-        add(f"run-{n}", [["rep", 0, n], ["hex", "07"]], [["hex", "09"], ["rep", 0, n]])
+    # common runs of exactly k * 0xFFFF and k * 0x10000 bytes (+-1) that are FOLLOWED by further ops (a run
+    # that is the last op hides a bad trailing copy behind the decoders' leniency).  The run is one marker
+    # byte plus zeros: difflib anchors it on the marker and extends it in linear time, Myers is linear too.
+    run = lambda n: [["hex", "4d"], ["rep", 0, n - 1]]                                  # noqa: E731
+    btail, ttail, lit = [["hex", "07" + "62" * 9]], [["hex", "09" + "74" * 11]], [["hex", "3c686561643e"]]
+    for n in (65534, 65535, 65536, 65537, 131069, 131070, 131071, 131072, 131073):
+        add(f"run-{n}-start", run(n) + btail, run(n) + ttail)                           # run, then a differing tail
+        add(f"run-{n}-middle", run(n) + btail, lit + run(n) + ttail)                    # literal head, run, tail
+        add(f"run-{n}-offset", [["rep", 0x50, 300]] + run(n) + btail, lit + run(n) + ttail)   # run at base offset 300
+    for n in (65535, 131070):                                                           # and as the last op
+        add(f"run-{n}-last", run(n) + btail, lit + run(n))
     add("run-70k-zero", [["rep", 0, 70 * K]], [["rep", 0, 70 * K], ["hex", "01"]])
     slow_py = MODES if not ctx.quick else ("rs",)      # SequenceMatcher needs >10 s on these
     add("prefix-140k", [["rand", 7, 140 * K], ["rand", 8, 100]], [["rand", 7, 140 * K], ["rand", 9, 50]], slow_py)
